@@ -238,3 +238,157 @@ def task_client_receive():
             return
         run.cover("cover[client.tcp]/eof")
     return task
+
+
+# =====================================================================================================
+# C18 -- every way a connection can end leaves the router clean
+# =====================================================================================================
+def cancellable_await(I, v):
+    """like default_await, plus: any await may be the point where the task is cancelled"""
+    g = I.ghost
+    if g.get("cancel_may_happen") and I.prover.fork(I.fresh("cancelled_here", z3.BoolSort())):
+        asy = I.import_module("asyncio")
+        raise IRaise(IObject(asy.ns["CancelledError"]))
+    return default_await(I, v)
+
+
+def task_c18(which):
+    """The per-connection coroutine of the server (tcp: handler_func; tty: ConnectionHandler.handle) for
+    EVERY way the receive loop can end: EOF at any iteration (also inside a message / after junk: the buffer
+    content is arbitrary), a read error, an exception out of message handling, cancellation at any await."""
+    def task(I, run):
+        I.ghost.update(io_may_fail=True, router_may_raise=True, cancel_may_happen=True, trace=[], registered=[], unregistered=[])
+        label = which
+        if which == "tcp":
+            mod = I.import_module("indi.transport.server.tcp")
+            CH = mod.ns["ConnectionHandler"]
+            I.contracts[BUFFER_PROCESS.key] = BUFFER_PROCESS
+            I.contracts[RECV_TCP.key] = RECV_TCP
+            I.await_hook = cancellable_await
+            reader, writer = Sym(I.fresh("reader"), ReaderIface()), Sym(I.fresh("writer"), WriterIface())
+            router = Sym(I.fresh("router"), RouterIface())
+            run.assume(is_ref(router.term))
+            other = IObject(CH)          # another live connection in the class-level list
+            CH.attrs["connections"] = IList([other])
+            hf = I.call(I.getattr(CH, "handler"), [router], {})
+            coro = I.call(hf, [reader, writer], {})
+        else:
+            h, CH, router, stdin, stdout = make_tty_handler(I)
+            I.contracts[RECV_TTY.key] = RECV_TTY
+            I.await_hook = cancellable_await
+            I.ghost.update(trace=[t for t in I.ghost["trace"]])
+            coro = I.call(I.getattr(h, "handle"), [], {})
+        ended = "returned"
+        try:
+            I.do_await(coro)
+        except IRaise as e:
+            ended = "raised %s" % (e.value.cls.name if isinstance(e.value, IObject) else e)
+        g = I.ghost
+        reg, unreg = g["registered"], g["unregistered"]
+        run.cover("cover[%s]/%s" % (label, ended))
+        run.oblige("C18|%s/registers-the-connection-exactly-once" % label, z3.BoolVal(len(reg) == 1))
+        conn = reg[0] if reg else None
+        run.oblige("C18|%s/the-router-forgets-the-connection-however-it-ended(%s)" % (label, "any"),
+                   z3.BoolVal(len(unreg) == 1 and unreg[0] is conn), note="ended: %s; unregistered %d times" % (ended, len(unreg)))
+        run.canary("C18|canary[%s]/the-connection-is-never-unregistered" % label, z3.BoolVal(len(unreg) == 0))
+        tr = g["trace"]
+        pos_reg = [i for i, t in enumerate(tr) if t[0] == "register"]
+        pos_unreg = [i for i, t in enumerate(tr) if t[0] == "unregister"]
+        run.oblige("C18|%s/unregistration-comes-last-after-registration" % label,
+                   z3.BoolVal(bool(pos_reg) and bool(pos_unreg) and pos_reg[0] < pos_unreg[-1]))
+        if which == "tcp":
+            closes = [t for t in tr if t[0] == "close"]
+            run.oblige("C18|tcp/the-socket-is-closed-exactly-once", z3.BoolVal(len(closes) == 1))
+            lst = CH.attrs["connections"].items
+            run.oblige("C18|tcp/the-connection-leaves-the-server's-list-and-the-others-stay",
+                       z3.BoolVal(len(lst) == 1 and lst[0] is other))
+            run.oblige("C18|tcp/the-per-connection-coroutine-swallows-the-failure(server-keeps-serving)", z3.BoolVal(ended == "returned"),
+                       note="ended: %s" % ended)
+    return task
+
+
+# =====================================================================================================
+# C19 -- outbound messages are whole and in order under every I/O schedule (lock discipline O1..O5)
+# =====================================================================================================
+def task_c19(which):
+    def task(I, run):
+        asy = I.import_module("asyncio")
+        I.ghost.update(trace=[], tasks=[])
+        I.await_hook = default_await
+        if which == "tcp-server":
+            h, CH, router, reader, writer = make_tcp_server_handler(I)
+            file_, route_fn, send_fn = TCP_S, "message_from_device", "send"
+        elif which == "tcp-client":
+            mod = I.import_module("indi.transport.client.tcp")
+            CH = mod.ns["ConnectionHandler"]
+            reader, writer = Sym(I.fresh("reader"), ReaderIface()), Sym(I.fresh("writer"), WriterIface())
+            h = I.call(CH, [reader, writer, None], {})
+            file_, route_fn, send_fn = TCP_C, "send_message", "send"
+        else:
+            I.ghost["write_is_awaitable"] = True
+            h, CH, router, stdin, writer = make_tty_handler(I)
+            file_, route_fn, send_fn = TTY_S, "message_from_device", "_write"
+        I.ghost["trace"] = []
+        label = which
+        # O1/O2: the routing call serialises synchronously, creates exactly one task, awaits nothing
+        base = I.import_module("indi.message.base")
+        msg = IObject(base.ns["IndiMessage"])
+        serialised = []
+
+        def to_string(I_, f, args, kwargs):
+            b = I_.fresh_sym("wire_bytes")
+            I_.prover.assume(is_bytes(b.term))
+            serialised.append((len(I_.ghost["trace"]), b))
+            I_.ghost["trace"].append(("serialise", args[0]))
+            return b
+        I.call_hooks[("indi/message/base.py", "IndiMessage.to_string")] = to_string
+        rf, _ = CH.lookup(route_fn)
+        run.oblige("C19|%s/O2:the-routing-call-is-synchronous(cannot-block-the-router)" % label, z3.BoolVal(isinstance(rf, IFunction) and not rf.is_async))
+        try:
+            I.call(IBound(rf, h), [msg], {})
+        except IRaise as e:
+            run.fail("C19|%s/routing-call-raises-nothing" % label, "raised %s" % e)
+            return
+        tasks = I.ghost.get("tasks", [])
+        awaits = [t for t in I.ghost["trace"] if t[0] == "await"]
+        run.oblige("C19|%s/O1:the-bytes-are-produced-in-the-routing-call" % label, z3.BoolVal(len(serialised) == 1))
+        run.oblige("C19|%s/O2:exactly-one-task-per-routed-message-and-no-await-in-the-routing-call" % label,
+                   z3.BoolVal(len(tasks) == 1 and isinstance(tasks[0], ICoroutine) and not awaits))
+        if not (len(tasks) == 1 and isinstance(tasks[0], ICoroutine)):
+            return
+        co = tasks[0]
+        data = co.args[-1] if co.args else None
+        if which == "tty":
+            # the tty channel writes text: the task argument is the decoded serialisation
+            ok_arg = isinstance(data, Sym) and serialised and S(get_s(data.term)).eq(S(get_y(serialised[0][1].term)))
+        else:
+            ok_arg = serialised and data is serialised[0][1]
+        run.oblige("C19|%s/O1:the-task-carries-exactly-those-bytes" % label, z3.BoolVal(bool(ok_arg)))
+        run.oblige("C19|%s/the-task-is-the-connection's-own-send-coroutine" % label,
+                   z3.BoolVal(co.func.qualname.endswith("ConnectionHandler." + send_fn) and co.args and co.args[0] is h))
+        # O3/O4/O5: run the send coroutine: every stream access inside one critical section of the connection's lock
+        I.ghost["trace"] = []
+        try:
+            I.do_await(co)
+        except IRaise as e:
+            run.fail("C19|%s/send-raises-nothing-when-the-stream-works" % label, "raised %s" % e)
+            return
+        tr = I.ghost["trace"]
+        kinds = [t[0] for t in tr]
+        writes = [i for i, t in enumerate(tr) if t[0] == "write"]
+        acq = [i for i, t in enumerate(tr) if t[0] == "lock-acquire"]
+        rel = [i for i, t in enumerate(tr) if t[0] == "lock-release"]
+        run.oblige("C19|%s/O4:the-whole-message-is-handed-over-in-one-write" % label,
+                   z3.BoolVal(len(writes) == 1 and tr[writes[0]][2] is data))
+        lock_obj = h.fields.get("sender_lock")
+        in_section = bool(writes) and bool(acq) and bool(rel) and acq[0] < writes[0] < rel[-1] and len(acq) == 1 and len(rel) == 1 \
+            and all(tr[i][1] is lock_obj for i in acq + rel) and lock_obj is not None
+        run.oblige("C19|%s/O3:every-stream-access-is-inside-one-critical-section-of-the-connection's-own-lock" % label, z3.BoolVal(in_section),
+                   note="trace: %s" % kinds)
+        stream_ops = [i for i, t in enumerate(tr) if t[0] in ("write",) or (t[0] == "await" and t[1] in ("drain", "flush", "write"))]
+        run.oblige("C19|%s/O5:nothing-touches-the-stream-outside-the-section" % label,
+                   z3.BoolVal(bool(acq) and bool(rel) and all(acq[0] < i < rel[-1] for i in stream_ops)), note="trace: %s" % kinds)
+        if which != "tty":
+            first_await = min([i for i, t in enumerate(tr) if t[0] == "await" and t[1] != "lock.acquire"] or [10 ** 9])
+            run.oblige("C19|%s/O4:the-write-precedes-any-await-inside-the-section" % label, z3.BoolVal(bool(writes) and writes[0] < first_await))
+    return task
